@@ -72,6 +72,10 @@ L13 == {<<"nmt", 1>>, <<"nmt", 2>>, <<"nmt", 128>>, <<"rpdo", 517, D1>>, <<"rpdo
         \* reconfiguration of the synchronous RPDO #2 while a frame may be waiting for its SYNC
         <<"cfg", "cid", FALSE, 2, <<5, 3, 0, 128>>>>, <<"cfg", "cid", FALSE, 2, <<5, 3, 0, 0>>>>, <<"cfg", "type", FALSE, 2, 254>>, <<"cfg", "type", FALSE, 2, 1>>}
 P13 == << <<"rd", "a">>, <<"rd", "b">>, <<"rd", "w">>, <<"rd", "l">>, <<"sync", 128>>, <<"rd", "b">>, <<"rd", "l">>, <<"nmt", 1>>, <<"rpdo", 773, D2>>, <<"sync", 128>>, <<"sync", 128>>, <<"rd", "l">> >>
+\* ---- C09P: "PDO in OPERATIONAL only" for the synchronous RPDO, whose frame is buffered across NMT transitions: RPDO #1 synchronous, #2 asynchronous
+RC09P == << RC(FALSE, 517, 1, 1, <<M("b", 8), Z4, Z4, Z4>>), RC(FALSE, 773, 254, 1, <<M("a", 8), Z4, Z4, Z4>>) >>
+L09P == {<<"nmt", 1>>, <<"nmt", 2>>, <<"nmt", 128>>, <<"rpdo", 517, D1>>, <<"rpdo", 517, D2>>, <<"rpdo", 773, D1>>, <<"sync", 128>>}
+P09P == << <<"sync", 128>>, <<"rd", "b">>, <<"rd", "a">>, <<"nmt", 1>>, <<"sync", 128>>, <<"rd", "b">>, <<"rpdo", 517, D2>>, <<"nmt", 128>>, <<"sync", 128>>, <<"rd", "b">> >>
 \* ---- C14: one TPDO (a, w; valid, event driven) and one RPDO (b; valid); configuration writes in every state
 TC14 == << TC(FALSE, 389, 254, 0, 0, 2, <<M("a", 8), M("w", 16), Z4, Z4>>) >>
 RC14 == << RC(FALSE, 517, 254, 1, <<M("b", 8), Z4, Z4, Z4>>) >>
